@@ -302,8 +302,9 @@ pub fn gen_c14(seed: u64, thorough: bool, only: Option<u64>, out: &mut Out) {
       continue;
     }
     let mut r = Prng::for_case(seed, "C14", hi);
-    let tagsets: [&[u8]; 5] = [&[0, 1], &[0, 255], &[2, 6], &[0, 1, 2, 3, 4, 128, 254, 255], &[7]];
-    let mds: Vec<u8> = tagsets[(hi % 5) as usize].to_vec();
+    // (the last two: tags configured out of order, and a tag listed twice)
+    let tagsets: [&[u8]; 7] = [&[0, 1], &[0, 255], &[2, 6], &[0, 1, 2, 3, 4, 128, 254, 255], &[7], &[9, 7, 3], &[3, 4, 3, 5]];
+    let mds: Vec<u8> = tagsets[(hi % 7) as usize].to_vec();
     let (mut w, head) = World::new(&mds);
     let inputs: Vec<Vec<u8>> = vec![b"some_test_input".to_vec(), vec![], r.bytes(200)];
     let pts: Vec<Vec<u8>> = inputs.iter().map(|i| blind(i).0).collect();
@@ -314,6 +315,16 @@ pub fn gen_c14(seed: u64, thorough: bool, only: Option<u64>, out: &mut Out) {
       p.push(mds[0].wrapping_add(1));
       p
     };
+    // a tag listed twice is punctured once and must be gone; tags listed out of order answer under their own keys
+    if hi % 7 >= 5 {
+      for &md in &mds {
+        w.eval(0, md, &pts[0], true);
+      }
+      w.puncture(0, mds[0]);
+      for &md in &mds {
+        w.eval(0, md, &pts[0], false);
+      }
+    }
     // scripted openings that the random walk would rarely find
     match hi % 6 {
       0 => {
@@ -396,8 +407,8 @@ pub fn gen_keystate(seed: u64, thorough: bool, out: &mut Out) {
   let n = if thorough { 24 } else { 6 };
   for gi in 0..n {
     let mut r = Prng::for_case(seed, "KS", gi);
-    let tagsets: [&[u8]; 4] = [&[0, 1], &[0, 255], &[0, 1, 2, 3, 4, 128, 254, 255], &[7]];
-    let mds = tagsets[(gi % 4) as usize].to_vec();
+    let tagsets: [&[u8]; 6] = [&[0, 1], &[0, 255], &[0, 1, 2, 3, 4, 128, 254, 255], &[7], &[9, 7, 3], &[3, 4, 3, 5]];
+    let mds = tagsets[(gi % 6) as usize].to_vec();
     let mut s = Server::new(mds.clone()).expect("server");
     let np = r.below(4) as usize + (gi as usize % 2);
     for _ in 0..np {
@@ -452,7 +463,7 @@ pub fn gen_c12(seed: u64, thorough: bool, only: Option<u64>, out: &mut Out) {
       continue;
     }
     let mut r = Prng::for_case(seed, "C12", gi);
-    let mds: Vec<u8> = if gi % 2 == 0 { vec![0, 1, 2] } else { vec![5, 255] };
+    let mds: Vec<u8> = match gi % 4 { 0 => vec![0, 1, 2], 1 => vec![5, 255], 2 => vec![9, 7, 3], _ => vec![3, 3, 7] };
     let (mut w, head) = World::new(&mds);
     let ilen = *r.pick(&[0usize, 1, 15, 64, 165, 166, 167, 200, 400]);
     let input = r.blob(ilen);
@@ -555,7 +566,7 @@ pub fn gen_c13(seed: u64, thorough: bool, only: Option<u64>, out: &mut Out) {
       continue;
     }
     let mut r = Prng::for_case(seed, "C13", gi);
-    let mds: Vec<u8> = vec![0, 1, 200];
+    let mds: Vec<u8> = if gi % 3 == 2 { vec![200, 1, 0] } else { vec![0, 1, 200] };
     let (mut w, head) = World::new(&mds);
     let (mut w2, head2) = World::new(&mds);
     let md = mds[(gi % 3) as usize];
